@@ -311,12 +311,17 @@ func (l *Linter) lintSwitchStatement(stmt *ast.SwitchStatement, ctx *context.Con
 
 	for _, c := range stmt.Cases {
 		for _, s := range c.Statements {
-			switch s.(type) {
-			case *ast.BreakStatement, *ast.FallthroughStatement:
-				break // parser already made sure break/fallthrough is at the end.
-			default:
-				l.lint(s, ctx)
-			}
+			// Ignore comments on the statements of a case clause work like the ones in a block statement
+			func(v ast.Statement) {
+				l.ignore.SetupStatement(v.GetMeta())
+				defer l.ignore.TeardownStatement(v.GetMeta())
+				switch v.(type) {
+				case *ast.BreakStatement, *ast.FallthroughStatement:
+					break // parser already made sure break/fallthrough is at the end.
+				default:
+					l.lint(v, ctx)
+				}
+			}(s)
 		}
 	}
 
